@@ -27,7 +27,7 @@ typedef uint64_t vbitsVal;
         /* Remove sign bit from native-level width */                          \
         (val) = -(val);                                                        \
         /* Add sign bit to varint-level width. (toggle == add) */              \
-        (val) ^= (1ULL << (fullCompactBitWidth - 1));                          \
+        (val) ^= (1ULL << ((fullCompactBitWidth) - 1));                          \
     } while (0)
 
 /* Varint signed value back to native signed value */
@@ -36,9 +36,9 @@ typedef uint64_t vbitsVal;
 #define _varintBitstreamRestoreSigned(result, fullCompactBitWidth)             \
     do {                                                                       \
         /* If topmost bit in varint is set, convert to signed integer. */      \
-        if (((result) >> (fullCompactBitWidth - 1)) & 0x01) {                  \
+        if (((result) >> ((fullCompactBitWidth) - 1)) & 0x01) {                  \
             /* Remove sign bit from varint-level width. (toggle == remove) */  \
-            (result) ^= (1ULL << (fullCompactBitWidth - 1));                   \
+            (result) ^= (1ULL << ((fullCompactBitWidth) - 1));                   \
             /* Restore sign bit to native-level width. */                      \
             (result) = -(result);                                              \
         }                                                                      \
